@@ -511,12 +511,25 @@ pub fn large_size(d: &mut Dec, lo: u32, hi: u32) -> u32 {
     }
 }
 
-/// Auxiliary word 6: half of the triangles get the structure of drawn UI shapes — an edge parallel to an
+/// Auxiliary word 6: six triangles in ten get the structure of drawn UI shapes — an edge parallel to an
 /// axis (flat top / bottom, vertical side), a right angle, an obtuse corner on a flat edge; uniform random
 /// vertices almost never have it beyond a few pixels.
 pub fn structure_triangle(d: &mut Dec, a: Point, b: Point, c: Point) -> (Point, Point) {
-    match d.aux_u(6, 0, 7) {
+    match d.aux_u(6, 0, 9) {
         0..=3 => (b, c),
+        8 | 9 => {
+            // edges with small rational slopes (1/2, 2, 1/3, 2/3, ...): the stroke edges of a thick outline then
+            // meet exactly on half pixels, and isosceles / 1:2 shapes are what icons are made of
+            const V: [(i32, i32); 12] = [(1, 2), (2, 1), (1, 3), (3, 1), (2, 3), (3, 2), (1, 1), (1, -2), (2, -1), (1, -1), (1, 0), (0, 1)];
+            let scale = |p: Point| ((p.x - a.x).abs().max((p.y - a.y).abs())).max(1);
+            let (kb, kc) = (scale(b), scale(c));
+            let vb = V[(kb as usize * 7 + kc as usize) % 12];
+            let vc = V[(kc as usize * 5 + kb as usize * 3 + 1) % 12];
+            let sb = if b.x < a.x { -1 } else { 1 };
+            let sc = if c.x < a.x { -1 } else { 1 };
+            let (mb, mc) = (kb / vb.0.abs().max(vb.1.abs()).max(1), kc / vc.0.abs().max(vc.1.abs()).max(1));
+            (a + Point::new(sb * vb.0 * mb.max(1), vb.1 * mb.max(1)), a + Point::new(sc * vc.0 * mc.max(1), vc.1 * mc.max(1)))
+        }
         4 => (b, Point::new(c.x, b.y)),                    // b-c horizontal
         5 => (Point::new(a.x, b.y), c),                    // a-b vertical
         6 => (Point::new(a.x, b.y), Point::new(c.x, a.y)), // right angle at a
